@@ -33,6 +33,17 @@ def irq_obligations(prog, power, timers, V, O):
     ok_, pc1, s1, f1, imr1, isr1 = O["ok"], O["pc"], O["s"], O["f"], O["imr"], O["isr"]
     pend1, inint1, halted1, off1, icount, total = O["pend"], O["inint"], O["halted"], O["off"], O["icount"], O["total"]
     mem1 = O["mem"]
+    if prog == "press_on":
+        # event step (Python machine): the ON key raises its status bit outside any instruction.  "A pending but masked request
+        # is not lost": the request must be recorded in every controller state (inside a handler too), and the event must not
+        # touch anything else.
+        ev = []
+        if V.get("needs_pending_flag"):
+            ev.append(("event-records-request", z3.Not(z3.And((isr1 & 0x08) == 0x08, pend1 == 1))))
+        same = z3.And(pc1 == bv(PC0, 20), s1 == S, imr1 == imr, isr1 == (isr | 0x08), total == 0, icount == 0, inint1 == inint,
+                      z3.Extract(1, 0, f1) == z3.Extract(1, 0, F), *[mem1[i] == st[i] for i in range(10)])
+        ev.append(("event-changes-nothing-else", z3.Not(same)))
+        return ev
     plen = len(PROGRAMS[prog])
     o = lambda i, bits=32: O["next_mti"] if i == 17 else O["next_sti"]  # noqa: E731
     taken = total == 1
@@ -243,7 +254,8 @@ def run_python_case(item):
     res = {"key": key, "paths": 0, "obligations": 0, "discharged": 0, "unknown": 0, "cex": [], "solver_time": 0.0, "samples": [], "inconclusive": []}
     B = z3.BitVec
     S = bv(0xBB000, 20)
-    code_t = [B("imm", 8) if b is None else b for b in PROGRAMS[prog]]
+    program = PROGRAMS.get(prog, [0x00])  # event cases (press_on) sit on a NOP
+    code_t = [B("imm", 8) if b is None else b for b in program]
 
     def fn():
         from pce500.emulator import PCE500Emulator
@@ -259,7 +271,7 @@ def run_python_case(item):
             if ov.name == "internal_rom":
                 ov.data = rom
         imm = SymInt.var("imm", 8)
-        for i, b in enumerate(PROGRAMS[prog]):
+        for i, b in enumerate(program):
             emu.memory.write_byte(PC0 + i, imm if b is None else b)
         imr, isr = SymInt.var("imr", 8), SymInt.var("isr", 8)
         eng = core.engine()
@@ -270,7 +282,7 @@ def run_python_case(item):
             eng.assume((imr & 0x7E) == 0)
             eng.assume((isr & 0xFE) == 0)
             eng.assume((imm & (0x7E if prog == "wr_imr" else 0xFE)) == 0)
-        for i in range(len(PROGRAMS[prog]), 12):
+        for i in range(len(program), 12):
             emu.memory.write_byte(PC0 + i, 0)  # NOPs after the program: the decoder's look-ahead must not fork over every opcode
         # internal memory is the last 256 bytes of the backing store: seed it there (write_byte would run the IMR/ISR
         # bit-watch bookkeeping against the arbitrary previous contents, one fork per bit)
@@ -315,7 +327,7 @@ def run_python_case(item):
             sch.enabled = True
         n0 = emu.instruction_count
         tot0 = int(emu.irq_counts.get("total", 0))
-        ok = emu.step()
+        ok = emu.press_key("KEY_ON") if prog == "press_on" else emu.step()
         post = {"ok": ok, "pc": regs.get(RegisterName.PC), "s": regs.get(RegisterName.S), "f": regs.get(RegisterName.F), "imr": emu.memory.read_byte(IM + 0xFB), "isr": emu.memory.read_byte(IM + 0xFC),
                 "pend": emu._irq_pending, "inint": emu._in_interrupt, "halted": emu.cpu.state.halted, "icount": emu.instruction_count - n0,
                 "total": emu.irq_counts.get("total", 0) - tot0, "mem": [emu.memory.read_byte(0xBB000 - 5 + i) for i in range(10)]}
@@ -396,6 +408,7 @@ def main(tier):
     cs = cases(tier)
     rs_cs = [c for c in cs if not (tier == "quick" and c[0] == "off")]  # the OFF program repeats the HALT program's paths: thorough only
     py_cs = [c for c in cs if c[1] != "off"] + ([("nop", "halted", True), ("nop", "running", True)] if tier == "quick" else [])  # no separate powered-off state in Python
+    py_cs += [("press_on", "running", False), ("press_on", "halted", False)]  # event step: the ON key outside any instruction
     results = common.pool_map(run_rust_case, [(tier, c) for c in rs_cs]) + common.pool_map(run_python_case, [(tier, c) for c in py_cs])
     tot = {k: 0 for k in ("paths", "obligations", "discharged", "unknown")}
     solver_time = 0.0
